@@ -1,4 +1,49 @@
+// std::io::Write as a trait with a trait-level contract.
+//   * `write` / `flush` are required methods: every `impl Write for X` extracted from /repo
+//     must satisfy the contract below (Verus checks the impl against it);
+//   * `write_all` is std's provided method.  ASSUMED: it calls `write` repeatedly on the
+//     unwritten rest until everything is accepted or an error is returned — so it is
+//     specified purely in terms of the contract of `write` (composition of steps).
 pub mod write_trait {
     use vstd::prelude::*;
-    pub trait Write { }
+    use crate::spec::*;
+    use crate::shims::std::io;
+    pub trait Write: Sized {
+        /// implementor's invariant linking the object to the file system
+        spec fn wr_inv(&self, w: World) -> bool;
+        /// the bytes accepted so far
+        spec fn wr_sink(&self, w: World) -> Seq<u8>;
+        /// what any number of write/flush steps may change (must be reflexive + transitive)
+        spec fn wr_step(pre_s: Self, pre: World, post_s: Self, post: World) -> bool;
+        proof fn wr_step_refl(s: Self, w: World)
+            ensures Self::wr_step(s, w, s, w);
+        proof fn wr_step_trans(a: Self, wa: World, b: Self, wb: World, c: Self, wc: World)
+            requires Self::wr_step(a, wa, b, wb), Self::wr_step(b, wb, c, wc)
+            ensures Self::wr_step(a, wa, c, wc);
+
+        fn write(&mut self, buf: &[u8], Tracked(w): Tracked<&mut World>) -> (r: io::Result<usize>)
+            requires old(self).wr_inv(*old(w)),
+            ensures
+                final(self).wr_inv(*final(w)),
+                Self::wr_step(*old(self), *old(w), *final(self), *final(w)),
+                r is Ok ==> r->Ok_0 <= buf@.len() && final(self).wr_sink(*final(w)) == old(self).wr_sink(*old(w)) + buf@.subrange(0, r->Ok_0 as int),
+                r is Err ==> final(self).wr_sink(*final(w)) == old(self).wr_sink(*old(w));
+
+        fn flush(&mut self, Tracked(w): Tracked<&mut World>) -> (r: io::Result<()>)
+            requires old(self).wr_inv(*old(w)),
+            ensures
+                final(self).wr_inv(*final(w)),
+                Self::wr_step(*old(self), *old(w), *final(self), *final(w)),
+                final(self).wr_sink(*final(w)) == old(self).wr_sink(*old(w));
+
+        #[verifier::external_body]
+        fn write_all(&mut self, buf: &[u8], Tracked(w): Tracked<&mut World>) -> (r: io::Result<()>)
+            requires old(self).wr_inv(*old(w)),
+            ensures
+                final(self).wr_inv(*final(w)),
+                Self::wr_step(*old(self), *old(w), *final(self), *final(w)),
+                r is Ok ==> final(self).wr_sink(*final(w)) == old(self).wr_sink(*old(w)) + buf@,
+                r is Err ==> exists|k: int| 0 <= k <= buf@.len() && final(self).wr_sink(*final(w)) == old(self).wr_sink(*old(w)) + buf@.subrange(0, k),
+        { unimplemented!() }
+    }
 }
